@@ -95,7 +95,14 @@ func (p Plugin) CalculateRealloc(ctx context.Context, nodename string, resource 
 	var numaNodeID string
 	var numaMemory cpumemtypes.NUMAMemory
 
-	if req.CPUBind {
+	if req.CPUBind && p.canKeepCPUPlan(nodeResourceInfo, req, originResource, newReq) {
+		// keep the binding as it is: nothing about the cpu changes and the memory still fits
+		cpuMap = originResource.CPUMap
+		numaNodeID = originResource.NUMANode
+		if len(numaNodeID) > 0 {
+			numaMemory = cpumemtypes.NUMAMemory{numaNodeID: newReq.MemRequest}
+		}
+	} else if req.CPUBind {
 		cpuPlans := schedule.GetCPUPlans(nodeResourceInfo, originResource.CPUMap, p.config.Scheduler.ShareBase, p.config.Scheduler.MaxShare, newReq)
 		if len(cpuPlans) == 0 {
 			return nil, coretypes.ErrInsufficientResource
@@ -137,6 +144,27 @@ func (p Plugin) CalculateRealloc(ctx context.Context, nodename string, resource 
 		"delta_resource":    deltaWorkloadResource,
 		"workload_resource": newResource,
 	}, resp)
+}
+
+// canKeepCPUPlan tells if a keep-cpu-bind realloc without cpu change can stay on the cores (and NUMA node)
+// the workload already has; nodeResourceInfo already has the origin's resources returned to the pool
+func (p Plugin) canKeepCPUPlan(nodeResourceInfo *cpumemtypes.NodeResourceInfo, req *cpumemtypes.WorkloadResourceRequest, originResource *cpumemtypes.WorkloadResource, newReq *cpumemtypes.WorkloadResourceRequest) bool {
+	if !req.KeepCPUBind || len(originResource.CPUMap) == 0 || newReq.CPURequest != originResource.CPURequest {
+		return false
+	}
+	availableResource := nodeResourceInfo.GetAvailableResource()
+	for cpu, pieces := range originResource.CPUMap {
+		if availableResource.CPUMap[cpu] < pieces {
+			return false
+		}
+	}
+	if newReq.MemRequest > 0 && availableResource.Memory < newReq.MemRequest {
+		return false
+	}
+	if len(originResource.NUMANode) > 0 && availableResource.NUMAMemory[originResource.NUMANode] < newReq.MemRequest {
+		return false
+	}
+	return true
 }
 
 // CalculateRemap .
